@@ -93,3 +93,148 @@ theorem or_pow_eq_add (x k : Nat) (h : x < 2 ^ k) : x ||| 2 ^ k = x + 2 ^ k := b
   simp at this
   rw [Nat.or_comm]
   omega
+
+-- ---------------- representation lemmas used by the rename_gate proof (count view vs positional view) ----------------
+-- a counted element occurs at some position (witness function of the operand/users count views)
+theorem count_pos_witness {α : Type} [DecidableEq α] (l : List α) (x : α) (h : 0 < l.count x) :
+    ∃ i, ∃ (hi : i < l.length), l[i] = x := by
+  have hm : x ∈ l := List.count_pos_iff.mp h
+  obtain ⟨i, hi, e⟩ := List.getElem_of_mem hm
+  exact ⟨i, hi, e⟩
+
+-- an element at some position is counted
+theorem count_pos_of_getElem {α : Type} [DecidableEq α] (l : List α) (i : Nat) (hi : i < l.length) :
+    0 < l.count l[i] := List.count_pos_iff.mpr (List.getElem_mem hi)
+
+-- x occurs in the prefix of length k  <->  some position below k holds x   (prefix membership view pm(k, x))
+theorem mem_take_iff {α : Type} (l : List α) (k : Nat) (x : α) :
+    x ∈ l.take k ↔ ∃ i, ∃ (hi : i < l.length), i < k ∧ l[i] = x := by
+  constructor
+  · intro h
+    obtain ⟨i, hi, e⟩ := List.getElem_of_mem h
+    have hk : i < k := by
+      have := hi; simp [List.length_take] at this; omega
+    have hl : i < l.length := by
+      have := hi; simp [List.length_take] at this; omega
+    refine ⟨i, hl, hk, ?_⟩
+    simpa [List.getElem_take] using e
+  · rintro ⟨i, hi, hk, e⟩
+    have : i < (l.take k).length := by simp [List.length_take]; omega
+    have h2 : (l.take k)[i] = x := by simpa [List.getElem_take] using e
+    exact h2 ▸ List.getElem_mem this
+
+theorem mem_take_succ {α : Type} (l : List α) (k : Nat) (x : α) (h : k < l.length) :
+    x ∈ l.take (k + 1) ↔ (x ∈ l.take k ∨ l[k] = x) := by
+  rw [List.take_add_one]
+  simp only [List.getElem?_eq_getElem h, Option.toList_some, List.mem_append, List.mem_singleton]
+  constructor
+  · rintro (h1 | h1)
+    · exact Or.inl h1
+    · exact Or.inr h1.symm
+  · rintro (h1 | h1)
+    · exact Or.inl h1
+    · exact Or.inr h1.symm
+
+theorem mem_take_length_iff_count {α : Type} [DecidableEq α] (l : List α) (x : α) :
+    x ∈ l.take l.length ↔ 0 < l.count x := by
+  simp [List.count_pos_iff]
+
+-- two different positions holding the same element: it is counted at least twice
+theorem two_positions_count {α : Type} [DecidableEq α] (l : List α) (i j : Nat) (hij : i < j) (hj : j < l.length)
+    (h : l[i]'(by omega) = l[j]) : 2 ≤ l.count l[j] := by
+  induction l generalizing i j with
+  | nil => simp at hj
+  | cons a l ih =>
+    cases j with
+    | zero => omega
+    | succ j =>
+      simp only [List.length_cons] at hj
+      have hj' : j < l.length := by omega
+      cases i with
+      | zero =>
+        simp only [List.getElem_cons_zero, List.getElem_cons_succ] at h ⊢
+        rw [List.count_cons]
+        have := count_pos_of_getElem l j hj'
+        simp [h]
+      | succ i =>
+        simp only [List.getElem_cons_succ] at h ⊢
+        have := ih i j (by omega) hj' h
+        rw [List.count_cons]; omega
+
+-- the python comprehension  [i for i, y in enumerate(l, o) if y == x]
+def posFrom {α : Type} [DecidableEq α] (x : α) : Nat → List α → List Nat
+  | _, [] => []
+  | o, a :: l => (if a = x then [o] else []) ++ posFrom x (o + 1) l
+
+theorem posFrom_length {α : Type} [DecidableEq α] (x : α) (o : Nat) (l : List α) :
+    (posFrom x o l).length = l.count x := by
+  induction l generalizing o with
+  | nil => simp [posFrom]
+  | cons a l ih =>
+    simp only [posFrom, List.length_append, ih, List.count_cons]
+    by_cases h : a = x <;> simp [h] <;> omega
+
+theorem posFrom_mem {α : Type} [DecidableEq α] (x : α) (o : Nat) (l : List α) (i : Nat) :
+    i ∈ posFrom x o l ↔ ∃ j, ∃ (hj : j < l.length), i = o + j ∧ l[j] = x := by
+  induction l generalizing o with
+  | nil => simp [posFrom]
+  | cons a l ih =>
+    simp only [posFrom, List.mem_append, ih]
+    constructor
+    · rintro (h | ⟨j, hj, e, hx⟩)
+      · by_cases hax : a = x
+        · simp [hax] at h
+          exact ⟨0, by simp, by omega, by simpa using hax⟩
+        · simp [hax] at h
+      · exact ⟨j + 1, by simp; omega, by omega, by simpa using hx⟩
+    · rintro ⟨j, hj, e, hx⟩
+      cases j with
+      | zero =>
+        left
+        simp only [List.getElem_cons_zero] at hx
+        simp [hx, e]
+      | succ j =>
+        right
+        simp only [List.length_cons] at hj
+        exact ⟨j, by omega, by omega, by simpa using hx⟩
+
+theorem posFrom_ge {α : Type} [DecidableEq α] (x : α) (o : Nat) (l : List α) (i : Nat) (h : i ∈ posFrom x o l) : o ≤ i := by
+  obtain ⟨j, _, e, _⟩ := (posFrom_mem x o l i).mp h
+  omega
+
+-- the enumeration is strictly increasing
+theorem posFrom_sorted {α : Type} [DecidableEq α] (x : α) (o : Nat) (l : List α) :
+    (posFrom x o l).Pairwise (· < ·) := by
+  induction l generalizing o with
+  | nil => simp [posFrom]
+  | cons a l ih =>
+    simp only [posFrom]
+    rw [List.pairwise_append]
+    refine ⟨?_, ih (o + 1), ?_⟩
+    · by_cases h : a = x <;> simp [h]
+    · intro p hp q hq
+      have := posFrom_ge x (o + 1) l q hq
+      by_cases h : a = x
+      · simp [h] at hp; omega
+      · simp [h] at hp
+
+-- C16: the number codec.  RS b k = sum_{j<k} b j * 2^j  is what read_number(k) returns (ghost spec function RS of the
+-- SMT contract); write_number(n, k) stores b j = n / 2^j % 2.  Reading back gives n % 2^k, i.e. n when n < 2^k.
+def RS (b : Nat → Nat) : Nat → Nat
+  | 0 => 0
+  | j + 1 => RS b j + b j * 2 ^ j
+
+theorem RS_bits (n k : Nat) : RS (fun j => n / 2 ^ j % 2) k = n % 2 ^ k := by
+  induction k with
+  | zero => simp [RS, Nat.mod_one]
+  | succ k ih =>
+    simp only [RS, ih]
+    rw [Nat.mod_pow_succ, Nat.mul_comm]
+
+theorem read_write_number (n k : Nat) (h : n < 2 ^ k) : RS (fun j => n / 2 ^ j % 2) k = n := by
+  rw [RS_bits, Nat.mod_eq_of_lt h]
+
+-- the range test of write_number: (n >> k) = 0  <->  n < 2^k
+theorem shiftRight_eq_zero_iff (n k : Nat) : n >>> k = 0 ↔ n < 2 ^ k := by
+  rw [Nat.shiftRight_eq_div_pow, Nat.div_eq_zero_iff]
+  simp [Nat.pos_iff_ne_zero.mp (Nat.two_pow_pos k)]
